@@ -30,7 +30,22 @@ def collapse(seq):
     return out
 
 
+def eval_ab(case):
+    """Engine B replay of a server-role case: byte-identical output expected from the real process."""
+    from vlib import abcheck
+    L = case['lists']
+    B = lambda l: [fakenet.j2b(x) for x in l]
+    payload = wire.kexinit(B(L[0]), B(L[1]), B(L[3]), B(L[5]), B(L[7]), enc_c=B(L[2]), mac_c=B(L[4]), comp_c=B(L[6]))
+    spec = {'kexinit_raw': fakenet.b2j(payload), 'banner': 'SSH-2.0-OpenSSH_8.9p1 Ubuntu-3', 'hostkeys': {'ssh-ed25519': {'t': 'ed25519'}, 'ssh-rsa': {'t': 'rsa', 'bits': 2048}}, 'moduli': [2048], 'gex_style': 'roundup'}
+    ra, rb, pa, pb, eof = abcheck.run_both(spec, case['opts'])
+    abcheck.assert_agree(ra, rb, 'C01 %r' % (case['opts'],))
+    r = eval_case(dict(case, kind=None, role='server', probes=False))
+    return mkres(case, nt=True, classes=['engine-B'], fails=r['fails'])
+
+
 def eval_case(case):
+    if case.get('kind') == 'ab':
+        return eval_ab(case)
     if case.get('proto', 2) == 1:
         return eval_ssh1(case)
     L = case['lists']           # kex, key, enc_c2s, enc_s2c, mac_c2s, mac_s2c, comp_c2s, comp_s2c
@@ -211,6 +226,19 @@ def run(ctx):
         for opts in RENDERINGS:
             ssh1.append({'proto': 1, 'cmask': c, 'amask': a, 'opts': opts, 'flag1': True})
     ctx.map(ssh1)
+    # engine-B sample over deterministic peers drawn from the table (names incl. gss-*, unknown, duplicates)
+    ab = []
+    for i in range(10 if ctx.quick else 150):
+        r = ctx.rng
+        def pick(cat):
+            names = gens.db_names(cat)
+            return [r.choice(names) for _ in range(r.randint(1, 4))]
+        kex = pick('kex') + r.sample(['gss-gex-sha1-dZuIebMjgUqaxvbF7hDbAw==', 'unknown-kex@example.com', 'diffie-hellman-group-exchange-sha256', 'curve25519-sha256'], 2)
+        key = pick('key') + r.sample(['ssh-rsa', 'ssh-ed25519', 'made-up-key'], 2)
+        enc, mac = pick('enc') + [r.choice(['aes128-ctr', 'x-cipher'])], pick('mac')
+        ab.append({'kind': 'ab', 'proto': 2, 'lists': [kex, key, enc, enc, mac, mac, ['none'], ['none']], 'opts': RENDERINGS[i % len(RENDERINGS)]})
+    ctx.map(ab, chunk=1)
+    ctx.note(traces_validated_against_impl=len(ab))
     ctx.note(ssh1_mask_cases=len(ssh1), ssh1_masks_exhaustive=not ctx.quick)
     return ctx.finish('exploration', 'KEXINIT payloads from ten Hypothesis name-lists (database names, gss-* with base64 suffixes, unknown RFC 4251 names, non-UTF-8 bytes, duplicates, empty elements/lists, very long names; 20% asymmetric directions), server and client role, six renderings, 30% with probes answered; SSH-1 cipher x authentication masks (all 128x128 in thorough); non-trivial = any of gss/unknown/duplicate/empty/non-UTF-8/asymmetric/client/probes/long, or SSH-1',
                       assumptions=['names are RFC 4251 names (no comma, space or control characters); invalid UTF-8 is shown as U+FFFD', 'for ciphers/MACs either advertised direction is accepted, the same one for both'])
